@@ -162,6 +162,9 @@ class World:
         for number in index.values():
             kid = self.stork.refs[number]()
             obs.fields[number] = (kid.demand, kid.supply, kid.utilisation)
+            if any(value <= 0 for value in kid.written):
+                # its owner wrote demand 0 to it: released, whatever the pool lists
+                self.was_released.add(number)
         kid = None
         self.was_released.update(obs.released)
         return obs
